@@ -68,7 +68,7 @@ def run(ctx):
             lens = list(range(size))
         else:
             step = 7 if thorough else 37
-            lens = sorted(set(list(range(0, size, step)) + list(range(0, min(size, 600))) + list(range(max(0, size - 200), size))))
+            lens = sorted(set(list(range(0, size, step)) + list(range(0, min(size, 600))) + list(range(max(0, size - (6000 if lib else 200)), size))))
         cases.append({"file": s, "lengths": lens})
     cpath = ctx.write_cases(cases)
     trace = os.path.join(ctx.scr, "trace.ndjson")
